@@ -107,7 +107,7 @@ func c10call(f reflect.Value, kind string) (s string) {
 func c10runHist(j c09job) (res c09res) {
 	res.ID = j.ID
 	before := c09ids()
-	ip := c09newInterp()
+	ip := c09newInterp(nil)
 	bg := context.Background()
 	if _, err := ip.EvalWithContext(bg, c10defs); err != nil {
 		res.Err = "definitions: " + err.Error()
